@@ -238,7 +238,7 @@ func (c *Ctx) genNCond(near []int64) bs.NumericCondition {
 	return nc
 }
 
-var partitionPool = []string{"", "a", "b", "ab", "a\x00", "p1", "p2", "Z", "é", "\xff"}
+var partitionPool = []string{"", "a", "b", "ab", "a\x00", "p1", "p2", "Z", "é", "\xff", "an", "a|n", "a:n"}
 
 func (c *Ctx) genSCond() bs.StringCondition {
 	p := func() string { return partitionPool[c.intn(len(partitionPool))] }
